@@ -69,7 +69,7 @@ def strategy_case(draw):
         if form == "single":
             ms = [draw(st.integers(0, d - 1))]
         else:
-            ms = draw(st.lists(st.integers(0, d - 1), min_size=1, max_size=d, unique=True))
+            ms = draw(st.lists(st.integers(0, d - 1), min_size=1, max_size=d + 1, unique=draw(st.booleans())))
         case["modes"] = ms
         case["form"] = form
         case["rows"] = [draw(st.integers(1, 5)) for _ in ms]
@@ -219,7 +219,13 @@ def execute(case):
     if op == "mprod":
         g = core.rng(case["fseed"])
         ms = case["modes"]
-        facs = [core.payload([l, xs["N"][m]], dt, xs["mode"], g) for l, m in zip(case["rows"], ms)]
+        cur = list(xs["N"])
+        facs = []
+        for l, m in zip(case["rows"], ms):     # a mode may occur several times: the factors are applied in sequence
+            facs.append(core.payload([l, cur[m]], dt, xs["mode"], g))
+            cur[m] = l
+        if len(set(ms)) < len(ms):
+            ck.label("mprod:repeated_mode")
         if case["form"] == "single":
             res = lib(lambda: x.mprod(facs[0].clone(), ms[0]))
         else:
@@ -230,7 +236,7 @@ def execute(case):
             ref = torch.movedim(torch.tensordot(core.widen(f), ref, dims=([1], [m])), 0, m)
             ref_abs = torch.movedim(torch.tensordot(core.widen(f).abs(), ref_abs, dims=([1], [m])), 0, m)
         _check_tt(ck, T, res, ref, ref_abs, dt, exact, False)
-        ck.nontrivial = big and any(l != xs["N"][m] for l, m in zip(case["rows"], ms))
+        ck.nontrivial = big and (any(l != xs["N"][m] for l, m in zip(case["rows"], ms)) or len(set(ms)) < len(ms))
         return ck.verdict()
 
     if op == "to_ttm":
